@@ -349,6 +349,9 @@ class Engine:
         self.max_paths = max_paths
         self.inline_fn_values = True  # a named fn passed as a callback is analysed in place like a closure
         self.max_depth = max_depth
+        self.step_budget = None
+        self._steps_used = 0
+        self._forks_used = 0
         self.enum_tables = {}
         for u in program.units:
             for t in u.j.get("enum_tables", []):
@@ -876,9 +879,20 @@ class Engine:
         return fr
 
     def fork(self, st):
+        if self.step_budget is not None:
+            # a budgeted run is a fold on concrete inputs: it hardly ever forks; each fork copies the whole state
+            self._forks_used += 1
+            if self._forks_used > 300:
+                raise TooManyPaths("fork budget exceeded")
         return copy.deepcopy(st)
 
     def step(self, st):
+        # optional budget over a whole top-level run, nested runs of models included (a fold on concrete inputs that
+        # stops being a fold - an unmodelled call made the input symbolic - must end as "undecided", not run for minutes)
+        if self.step_budget is not None:
+            self._steps_used += 1
+            if self._steps_used > self.step_budget:
+                raise TooManyPaths("step budget of %d exceeded" % self.step_budget)
         fr = st.frames[-1]
         bi = fr.bi
         fr.visits[bi] = fr.visits.get(bi, 0) + 1
